@@ -362,9 +362,67 @@ def smtpCheck (c : Case) (r0 : Rep) : Rep := Id.run do
     if spec == .stray && finalLine.take 4 != str "451 " then r := r.ora c "class" s!"bare LF must be refused with 451, got {hex finalLine}"
   return r
 
+/-! ### datetime_tai / date822fmt on their own (harness/c07_date.c)
+
+   `DT <t> <hour> <min> <sec> <wday> <mday> <yday> <mon> <year> <date822 hex>` and `UB <t> <0|1>`.
+   DISAGREE: `Nq.Datetime.tai t` (all eight fields) / `Received.date822` / `Datetime.supported` differ from what the real code did.
+   ORACLE: the predicate of theorem `C07_datetime_civil` (`Datetime.civilOk`: valid Gregorian date whose independently computed
+   day number is ⌊t/86400⌋, base-60 time of day, weekday) fails on the implementation's `struct datetime`; for t ≥ 0 the
+   string differs from the independent `Spec.C07.dateSpec`. -/
+
+def dateLine (st0 : Stats) (fs : List String) : IO Stats := do
+  let key := "|".intercalate (fs.take 2)
+  let mut st := { st0 with cases := st0.cases + 1 }
+  let bad := fun (st : Stats) (what : String) => do
+    IO.println s!"DISAGREE what={what} case={key}"
+    return { st with disagree := st.disagree + 1 }
+  match fs with
+  | ["UB", ts, ab] =>
+    st := st.bump "date-range"
+    let some t := ts.toInt? | bad st "unparsable-line"
+    let modelUB := !Nq.Datetime.supported t
+    if modelUB != (ab == "1") then
+      return (← bad st s!"range model-overflow={modelUB} sanitizer-abort={ab}")
+    return st
+  | ["DT", ts, h, mi, se, wd, md, yd, mo, yr, dh] =>
+    st := st.bump "datetime"
+    let some t := ts.toInt? | bad st "unparsable-line"
+    let some dstr := unhex dh | bad st "unparsable-line"
+    let ints := [h, mi, se, wd, md, yd, mo, yr].map (·.toInt?)
+    match ints with
+    | [some hour, some min, some sec, some wday, some mday, some yday, some mon, some year] =>
+      let impl : Nq.Datetime.DT := { hour, min, sec, wday, mday, yday, mon, year }
+      let model := Nq.Datetime.tai t
+      if !Nq.Datetime.supported t then st ← bad st "harness ran an instant outside the supported range"
+      if impl != model then
+        let sh := fun (d : Nq.Datetime.DT) => s!"{d.year}-{d.mon}-{d.mday},{d.hour}:{d.min}:{d.sec},wday={d.wday},yday={d.yday}"
+        st ← bad st s!"datetime_tai model={sh model} impl={sh impl}"
+      -- date822fmt: the model of the formatter on the fields the implementation produced (years ≥ 0: no unsigned wrap)
+      if year ≥ 0 && mday ≥ 0 && mon ≥ 0 && hour ≥ 0 && min ≥ 0 && sec ≥ 0 then
+        let m := date822 { hour := hour.toNat, min := min.toNat, sec := sec.toNat, mday := mday.toNat, mon := mon.toNat, year := year.toNat }
+        if m != dstr then st ← bad st s!"date822fmt model={hex m} impl={dh}"
+      if t ≥ 0 then
+        let m := date822 (datetimeTai t.toNat)
+        if m != dstr then st ← bad st s!"date822fmt-of-datetime_tai model={hex m} impl={dh}"
+      -- oracle
+      if !Nq.Datetime.civilOk t impl then
+        IO.println s!"ORACLE kind=date-calendar what=datetime_tai({t}) = {year}-{mon + 1}-{mday} {hour}:{min}:{sec} wday {wday} is not the Gregorian date of day {t / 86400} second {t % 86400} (day number of that date: {Nq.Datetime.daysFromCivil year mon mday}) case={key}"
+        st := { st with oracle := st.oracle + 1 }
+      if t ≥ 0 && Nq.Spec.C07.dateSpec t.toNat != dstr then
+        IO.println s!"ORACLE kind=date-format what=date822fmt gives {dh}, expected {hex (Nq.Spec.C07.dateSpec t.toNat)} case={key}"
+        st := { st with oracle := st.oracle + 1 }
+      if st.samples < 5 && t > 1000000000 && t % 7919 == 0 then
+        IO.println s!"SAMPLE DT {t} -> {String.fromUTF8! ⟨dstr.toArray⟩}".trimAscii.toString
+        st := { st with samples := st.samples + 1 }
+      return st
+    | _ => bad st "unparsable-line"
+  | _ => bad st "unparsable-line"
+
 /-! ### line handler -/
 
 def handle (st : Stats) (line : String) : IO Stats := do
+  let fs := fields line
+  if fs.head? == some "DT" || fs.head? == some "UB" then return (← dateLine st fs)
   match parseCase line with
   | none =>
     IO.println s!"DISAGREE what=unparsable-line case={(line.take 300).toString.replace " " "|"}"
